@@ -20,7 +20,13 @@ def run(ctx):
         "log.err() in _turn is modelled as 'the exception is swallowed'",
         "the Promise model shares the FIFO discipline proved for the queue model (one reactor turn = run the tasks "
         "queued at its start, in order); promise.py's calls of eventually() are modelled as appends to that FIFO",
-        "method results that are Deferreds are not generated (values, raised exceptions and promises are)"]
+        "method results that are Deferreds are not generated (values, raised exceptions and promises are)",
+        "measured, not proved: Promise._resolve2 is never entered on a promise that is already NEAR/BROKEN (the model "
+        "records such an entry as a crash that leaves the promise alone); checked on every generated program",
+        "the global exactly-once/in-order accounting of promise messages is proved only as three local facts "
+        "(C17_pr_*_partial); the global statement is evaluated directly on the code (oracle/delivery-order)",
+        "flush observers' callbacks are modelled as 'enqueue these scripts'; callbacks that themselves call "
+        "flushEventualQueue() are not generated"]
     ok, log = ctx.coq_build(["props/C17.vo"])
     from harness import c17_impl as impl
     before = len(ctx.failures)
@@ -300,7 +306,7 @@ def pr_programs(ctx):
             out.append(pr_word(wd))
     # every word of length 4..5 over the core alphabet that has a resolution, a send, an observer and a turn
     core = "SWVBCvbT"
-    for n in (4, ctx.n(4, 6)):
+    for n in sorted(set((4, ctx.n(4, 5)))):
         for wd in itertools.product(core, repeat=n):
             if "T" in wd and "S" in wd and ("V" in wd or "B" in wd or "C" in wd):
                 out.append(pr_word(wd))
